@@ -292,6 +292,7 @@ class Engine:
                  output_branches='both', input_zero_tests='fork'):
         self.output_branches = output_branches
         self.input_zero_tests = input_zero_tests
+        self.after_violation_budget = 50
         self.feas_timeout_ms = feas_timeout_ms
         self.assert_timeout_ms = assert_timeout_ms
         self.max_paths = max_paths
@@ -464,6 +465,7 @@ class Engine:
     def _explore_reexec(self, fn, summarize):
         self.mode = 'reexec'
         records = []
+        first_violation = None
         self.schedule = []
         while True:
             stats0 = dict(self.stats)
@@ -472,6 +474,12 @@ class Engine:
             records.append(rec)
             if len(records) > self.max_paths:
                 records.append(dict(error='inconclusive: path bound %d exceeded' % self.max_paths, stats={}))
+                break
+            if rec.get('violations') and first_violation is None:
+                first_violation = len(records)
+            if first_violation is not None and len(records) - first_violation >= self.after_violation_budget:
+                # a counterexample is in hand: the rest of this case's path tree (possibly blown up by the very defect)
+                # is not explored - the case is reported as violated, never as held
                 break
             while self.schedule and self.schedule[-1][0] == len(self.schedule[-1][1]) - 1:
                 self.schedule.pop()
